@@ -372,7 +372,7 @@ func (self Reflect) listMap(v reflect.Value) node.Node {
 					keyVal := keys[r.Row]
 					item = v.MapIndex(keyVal)
 					var err error
-					key, err = node.NewValues(r.Meta.KeyMeta(), keyVal.Interface())
+					key, err = node.NewValues(r.Meta.KeyMeta(), mapKeyObject(r.Meta, keyVal).Interface())
 					if err != nil {
 						return nil, nil, err
 					}
